@@ -469,6 +469,12 @@ def make_file_pair(rng, fmt, workdir, n=None, pos_cls=None):
     else:
         open(estp, "w").write(rm.write_tum_text(est["t"], est["p"], gen.quats_of(est["R"])))
     for pth in (refp, estp):
+        if fmt != "kitti" and not pth.endswith(".csv") and rng.random() < .15:
+            # TUM files with a header comment (free text: commas, colons, quotes)
+            txt = open(pth).read()
+            open(pth, "w").write(["# run 3, exported by my_slam\n", "# timestamp tx ty tz qx qy qz qw\n",
+                                  "# seq: 'office, night'; \"v2\"\n#\n"][rng.integers(3)] + txt)
+    for pth in (refp, estp):
         if rng.random() < .12:
             # a file whose last line has no line terminator
             txt = open(pth, newline="").read()
